@@ -57,7 +57,7 @@ if [ "${SEED_IN_REPO:-0}" = 1 ]; then
 	rc=$?
 	git -C /repo checkout -- .
 else
-	(cd "$wt" && git checkout -- . && git apply "$out/patch.diff")
+	(cd "$wt" && git checkout -- . && git clean -fdq && git apply "$out/patch.diff")
 	(cd $V && VERIF_REPO=$wt VERIF_OUT_DIR=$V/.build/seedout/$id ./run "$prop" quick) >"$out/check.out" 2>&1
 	rc=$?
 	git -C /repo worktree remove --force "$wt"
